@@ -4,7 +4,7 @@ use serde_json::json;
 use zerv::cli::utils::OutputFormatter;
 use zerv::cli::utils::template::Template;
 use zerv::version::Zerv;
-use zvharness::refmodel::ren::{RComp, RSchema, RVar, RVars};
+use zvharness::refmodel::ren::{self, RComp, RSchema, RVar, RVars};
 use zvharness::refmodel::{cal, flow, san};
 use zvharness::zv::{self, Res};
 use zvharness::*;
@@ -50,6 +50,8 @@ fn assignments() -> Vec<(&'static str, RVars)> {
         ("zeros", RVars { major: Some(0), minor: Some(0), patch: Some(0), epoch: Some(0), pre: Some(("beta", Some(0))), post: Some(0), dev: Some(0), distance: Some(0), dirty: Some(false), bumped_branch: Some("0".into()), custom: json!({"k": 0}), ..Default::default() }),
         ("label_only", RVars { major: Some(10), pre: Some(("alpha", None)), dev: Some(9), bumped_branch: Some("Feat/0042_x".into()), bumped_commit_hash: Some("ABC".into()), custom: json!({"k": "Ab.01-x"}), ..Default::default() }),
         ("epoch_post", RVars { major: Some(4294967295), minor: Some(1), epoch: Some(7), post: Some(1), custom: json!({"k": {"a": 1}}), ..Default::default() }),
+        // numbers PEP 440's 32-bit fields cannot hold: --output-format pep440 refuses them; the template variable must not print another number
+        ("wide_secondary", RVars { major: Some(1), minor: Some(0), patch: Some(0), epoch: Some(4294967296), pre: Some(("rc", Some(4294967296))), post: Some(4294967297), dev: Some(18446744073709551615), custom: json!({"k": 1}), ..Default::default() }),
     ]
 }
 
@@ -78,6 +80,13 @@ fn judge_object(ctx: &Ctx, s: &RSchema, name: &str, v: &RVars, st: &mut Stats) {
         if !f[4].is_empty() { re.push('+'); re.push_str(f[4]); }
         if re != *sv { ctx.violation("semver_parts_do_not_recompose", key.clone(), case.clone(), format!("base {:?} pre {:?} build {:?} vs {sv:?}", f[2], f[3], f[4])); }
         if f[5] != sv.replace('+', "-") { ctx.violation("docker_form_mismatch", key.clone(), case.clone(), format!("docker {:?} vs semver {sv:?}", f[5])); }
+    }
+    if let Ok(Err(_)) = &pv {
+        // the formatter refuses the object (a number does not fit the format): the variable is refused as well (empty) or spells
+        // the documented placement with every number exact - never a version with another number in it
+        st.inc("clause_pep440_refused_by_formatter");
+        let exact = ren::pep440(s, v);
+        if !f[1].is_empty() && f[1] != exact { ctx.violation("pep440_variable_alters_unrepresentable_number", key.clone(), case.clone(), format!("{{{{pep440}}}}={:?} although --output-format pep440 refuses the object; exact placement would be {exact:?}", f[1])); }
     }
     if let Ok(Ok(pv)) = &pv {
         st.inc("clause_pep440_equal");
